@@ -25,6 +25,8 @@ using namespace stir;
 
 struct DataCfg {
   int N = 16, R = 3, span = 1, maxDelta = 2, mash = 1, tofMash = 0, maxT = 0, numTang = 7;
+  int cpb = 0;                  // BlocksOnCylindrical: axial crystals per block (0: one crystal per block, vh::make_scanner)
+  float axial_gap = 0.F;        // BlocksOnCylindrical: extra distance between axial blocks in mm
   float ring_spacing = 4.F, tilt = 0.F;
   std::string geom = "Cylindrical";
 };
@@ -41,8 +43,18 @@ struct Sw { bool s90 = true, s180 = true, sseg = true, ss = true, sz = true; };
 inline Sw sw_from_bits(int m) { Sw s; s.s90 = m & 1; s.s180 = m & 2; s.sseg = m & 4; s.ss = m & 8; s.sz = m & 16; return s; }
 inline std::vector<int> sw_list(const Sw& s) { return { s.s90, s.s180, s.sseg, s.ss, s.sz }; }
 
+// BlocksOnCylindrical scanner with cpb axial crystals per block, R / cpb axial blocks in one bucket, 4 transaxial buckets
+inline shared_ptr<Scanner> make_blocks_scanner(const DataCfg& d) {
+  const float radius = std::max(40.F, d.N * 4.F / 6.2831853F * 1.2F);
+  const int tpb = d.N / 4;
+  const float xtal = (float)(2 * 3.14159265358979 * radius / d.N) * 0.9F;
+  return shared_ptr<Scanner>(new Scanner(Scanner::User_defined_scanner, "tinyblocks", d.N, d.R, d.N - 1, d.N - 1, radius, 0.F, d.ring_spacing, 3.F, 0.F,
+                                         d.R / d.cpb, 1, d.cpb, tpb, d.cpb, tpb, 1, -1.F, -1.F, (short)-1, -1.F, -1.F, "BlocksOnCylindrical",
+                                         d.ring_spacing, xtal, d.ring_spacing * d.cpb + d.axial_gap, xtal * tpb));
+}
 inline shared_ptr<ProjDataInfo> make_pdi(const DataCfg& d) {
-  shared_ptr<Scanner> sc = vh::make_scanner(d.N, d.R, d.maxT, d.geom, d.ring_spacing, -1, d.tilt);
+  shared_ptr<Scanner> sc = (d.geom == "BlocksOnCylindrical" && d.cpb > 0) ? make_blocks_scanner(d)
+                                                                         : vh::make_scanner(d.N, d.R, d.maxT, d.geom, d.ring_spacing, -1, d.tilt);
   return ProjDataInfo::construct_proj_data_info(sc, d.span, d.maxDelta, d.N / 2 / d.mash, d.numTang, false, d.tofMash);
 }
 
@@ -121,7 +133,9 @@ inline void emit_geometry(vh::Json& j, const DataCfg& d, const ProjDataInfoCylin
       .num("maxT", d.maxT).num("minTang", pdi.get_min_tangential_pos_num()).num("maxTang", pdi.get_max_tangential_pos_num())
       .num("minSeg", pdi.get_min_segment_num()).num("maxSeg", pdi.get_max_segment_num()).num("numViews", pdi.get_num_views())
       .num("minView", pdi.get_min_view_num()).num("minTof", pdi.get_min_tof_pos_num()).num("maxTof", pdi.get_max_tof_pos_num())
-      .arr2("segs", segs).num("tilt", vh::fx(sc.get_intrinsic_azimuthal_tilt(), 12));
+      .arr2("segs", segs).num("tilt", vh::fx(sc.get_intrinsic_azimuthal_tilt(), 12))
+      .num("cpb", sc.get_num_axial_crystals_per_block()).boolean("uniform", pdi.axial_sampling_is_uniform())
+      .num("gap", sc.get_scanner_geometry() == "Cylindrical" ? 0 : vh::fx(sc.get_axial_block_spacing() - sc.get_num_axial_crystals_per_block() * sc.get_axial_crystal_spacing(), 12));
   CartesianCoordinate3D<int> lo, hi;
   im.get_regular_range(lo, hi);
   const CartesianCoordinate3D<float> vs = im.get_voxel_size(), org = im.get_origin();
@@ -130,6 +144,46 @@ inline void emit_geometry(vh::Json& j, const DataCfg& d, const ProjDataInfoCylin
       .num("ox", vh::fx(org.x(), 12)).num("oy", vh::fx(org.y(), 12))
       .num("nppr1024", vh::fx(pdi.get_ring_spacing() / vs.z(), 10)).num("oz1024", vh::fx(org.z() / vs.z(), 10))
       .num("ntl", o.ntl).boolean("uadb", o.uadb).boolean("cyl", o.cyl).str("impl", impl);
+}
+
+// End points of the rays of a bin on the border of the field of view, in voxel (index) units x 2^12, for the geometric
+// screen of rounding ties (Trace_MatrixCache!Tie).  This follows the documented parametrisation of the ray tracer
+//   X = s cos(phi) + a sin(phi),  Y = s sin(phi) - a cos(phi),  Z = m - a tan(theta),
+// with a = +-sqrt(fovrad^2 - s^2) (cylindrical FOV) or the square of half-side fovrad, fovrad = min(max index, -min index)
+// * voxel size.  It is an INPUT DESCRIPTION for the screen (which bins are outside the property), not an oracle: TLC never
+// compares a row with it.  Returns [x1,y1,z1,x2,y2,z2] per tangential ray; empty if the ray misses the FOV.
+inline std::vector<long long> lor_end_points(const ProjDataInfo& pdi, const VoxelsOnCartesianGrid<float>& im, const Bin& b, const MatOpt& o) {
+  std::vector<long long> out;
+  CartesianCoordinate3D<int> lo, hi;
+  im.get_regular_range(lo, hi);
+  const CartesianCoordinate3D<float> vs = im.get_voxel_size(), org = im.get_origin();
+  const double phi = pdi.get_phi(b), cphi = std::cos(phi), sphi = std::sin(phi);
+  const double tantheta = pdi.get_tantheta(b), m = pdi.get_m(b);
+  const double fov = std::min(std::min(hi.x(), -lo.x()) * (double)vs.x(), std::min(hi.y(), -lo.y()) * (double)vs.y());
+  const double s0 = pdi.get_s(b), sinc = (o.uadb ? 2 : 1) * pdi.get_sampling_in_s(b) / o.ntl;
+  for (int j = 0; j < o.ntl; ++j) {
+    const double s = s0 - sinc * (o.ntl - 1) / 2. + j * sinc;
+    double amax, amin;
+    if (o.cyl) {
+      if (std::fabs(s) > fov) continue;
+      amax = std::sqrt(fov * fov - s * s); amin = -amax;
+    } else {
+      if (std::fabs(cphi) < 1.E-3 || std::fabs(sphi) < 1.E-3) { if (fov < std::fabs(s)) continue; amax = fov; amin = -fov; }
+      else {
+        auto sg = [](double t) { return t < 0 ? -1. : 1.; };
+        amax = std::min((fov * sg(sphi) - s * cphi) / sphi, (fov * sg(cphi) + s * sphi) / cphi);
+        amin = std::max((-fov * sg(sphi) - s * cphi) / sphi, (-fov * sg(cphi) + s * sphi) / cphi);
+        if (amin > amax) continue;
+      }
+    }
+    for (double a : { amax, amin }) {
+      out.push_back(vh::fx((s * cphi + a * sphi) / vs.x(), 12));
+      out.push_back(vh::fx((s * sphi - a * cphi) / vs.y(), 12));
+      // z in image index units: the middle of the image is the centre of the scanner (shifted by the origin)
+      out.push_back(vh::fx((m - a * tantheta - org.z()) / vs.z() + (hi.z() + lo.z()) / 2., 12));
+    }
+  }
+  return out;
 }
 
 const int ROW_SCALE = 20;   // row values are logged as round(v * 2^20)
